@@ -1,7 +1,9 @@
 (* C14 -- What is written to disk reads back unchanged and never overwrites earlier output.
    Property theorems only; each is closed by [exact] of a lemma proved in Proofs/. *)
-From Coq Require Import ZArith List String.
-From BV Require Import Model.PyBase Gen.Files Proofs.FilesP.
+From Coq Require Import ZArith List String Bool.
+From BV Require Import Model.PyBase Model.FsOps Model.Params Model.Reports Model.Pickle.
+From BV Require Import Gen.Files Gen.Backup Gen.Params Gen.Reports Gen.Results.
+From BV Require Import Proofs.FilesP Proofs.BackupP Proofs.ParamsP Proofs.ReportsP Proofs.PickleP.
 
 (* T14a. get_new_file_name (as translated from /repo/src/biogeme/filenames.py on this run)
    terminates on every directory and returns the least free candidate of
@@ -26,8 +28,172 @@ Theorem T14b_history_never_overwrites : forall ops d,
 Proof. exact history_never_overwrites. Qed.
 Print Assumptions T14b_history_never_overwrites.
 
+(* non-vacuity: a decoy named like the first candidate survives two writes *)
+Example T14b_example :
+  run_history [("m.html", "decoy")]%string [("m", "html", "r1"); ("m", "html", "r2")]%string
+  = Some [("m.html", "decoy"); ("m~00.html", "r1"); ("m~01.html", "r2")]%string.
+Proof. vm_compute. reflexivity. Qed.
+
 Theorem T14b_written_content_readable : forall d base ext content,
   exists n d', write_fresh d (base, ext, content) = Some d' /\ ~ In n (names d) /\
                lookup d' n = Some content.
 Proof. exact written_content_readable. Qed.
 Print Assumptions T14b_written_content_readable.
+
+(* T14c. create_backup (as translated from /repo/src/biogeme/tools/files.py on this run): when the
+   file exists with content c, the backup name is the least free candidate base_1.ext, base_2.ext,
+   ... (a name that does not exist), the requested effect is os.rename / shutil.copy of the file to
+   that name, after which the new name holds c, no other file changed, and the original is gone
+   (rename) or intact (copy). *)
+Theorem T14c_backup_fresh : forall (d : dir) (filename : string) (rename : bool) (c : string),
+  lookup d filename = Some c ->
+  exists k n eff,
+    (1 <= k <= S (List.length d))%nat /\
+    n = bcand (fst (splitext filename)) (snd (splitext filename)) k /\
+    (fst (splitext filename) ++ snd (splitext filename))%string = filename /\
+    eff = (if rename then FsRename filename n else FsCopy filename n) /\
+    (forall fuel, (S (List.length d) <= fuel)%nat ->
+       create_backup (names d) fuel filename rename = Some (Some (eff, n))) /\
+    ~ In n (names d) /\
+    (forall j, (1 <= j < k)%nat ->
+       In (bcand (fst (splitext filename)) (snd (splitext filename)) j) (names d)) /\
+    lookup (apply_effect d eff) n = Some c /\
+    (forall n0, n0 <> filename -> n0 <> n -> lookup (apply_effect d eff) n0 = lookup d n0) /\
+    lookup (apply_effect d eff) filename = (if rename then None else Some c).
+Proof. exact create_backup_spec. Qed.
+Print Assumptions T14c_backup_fresh.
+
+(* non-vacuity: the file exists and its first backup name is taken *)
+Example T14c_example :
+  create_backup ["m.tar.gz"; "m.tar_1.gz"; "x"]%string 4 "m.tar.gz" false
+  = Some (Some (FsCopy "m.tar.gz" "m.tar_2.gz", "m.tar_2.gz"%string)).
+Proof. vm_compute. reflexivity. Qed.
+
+Theorem T14c_backup_absent : forall (d : dir) (filename : string) (rename : bool) (fuel : nat),
+  lookup d filename = None -> create_backup (names d) fuel filename rename = Some None.
+Proof. exact create_backup_absent. Qed.
+Print Assumptions T14c_backup_absent.
+
+Example T14c_absent_example : create_backup ["x"]%string 0 ".hidden" true = Some None.
+Proof. vm_compute. reflexivity. Qed.
+
+(* T14d. parse_boolean (translated from parameters.py) accepts exactly the listed spellings, each
+   mapped to the right boolean; the coding written by generate_document is read back. *)
+Theorem T14d_parse_boolean_spec : forall s b,
+  parse_boolean s = Some b <-> In s (if b then TRUE_STR else FALSE_STR).
+Proof. exact parse_boolean_spec. Qed.
+Print Assumptions T14d_parse_boolean_spec.
+
+Example T14d_spec_example : parse_boolean "yes" = Some true /\ parse_boolean "No" = Some false
+                            /\ parse_boolean "TRUE" = None.
+Proof. vm_compute. auto. Qed.
+
+Theorem T14d_parse_boolean_code : forall b,
+  exists s, encode_value (PBool b) = TStr s /\ parse_boolean s = Some b.
+Proof. exact parse_boolean_code. Qed.
+Print Assumptions T14d_parse_boolean_code.
+
+(* T14d. the whole parameter file: every admissible, well-typed parameter set written by
+   generate_document and read into a fresh dictionary by import_document has the same value for
+   every parameter (tomlkit's parse . dumps assumed to preserve the entries). *)
+Theorem T14d_toml_roundtrip : forall (tk : tdoc -> tdoc),
+  (forall doc k tv, In (k, tv) (tk doc) <-> In (k, tv) doc) ->
+  (forall doc, NoDup (map fst doc) -> NoDup (map fst (tk doc))) ->
+  forall ps defaults : pdict,
+    NoDup (map pkey defaults) -> same_schema ps defaults -> Forall admissible ps ->
+    exists d', imp_doc (tk (gen_doc ps)) defaults = Some d' /\
+      same_schema d' defaults /\
+      forall k, option_map p_value (dict_get d' k) = option_map p_value (dict_get ps k).
+Proof. exact toml_roundtrip. Qed.
+Print Assumptions T14d_toml_roundtrip.
+
+(* non-vacuity: a boolean and a float changed away from their defaults *)
+Example T14d_example :
+  let chk := fun _ : pvalue => true in
+  let defaults := [mkParam "dogleg" "TrustRegion" TyBool (PBool true) chk;
+                   mkParam "tolerance" "SimpleBounds" TyFloat (PFloat 1) chk]%string in
+  let ps := [mkParam "dogleg" "TrustRegion" TyBool (PBool false) chk;
+             mkParam "tolerance" "SimpleBounds" TyFloat (PFloat 4607182418800017408) chk]%string in
+  option_map (map p_value) (imp_doc (rev (gen_doc ps)) defaults)
+  = Some [PBool false; PFloat 4607182418800017408].
+Proof. vm_compute. reflexivity. Qed.
+
+(* the hypothesis `well_typed` is needed (faithful model): a Python bool stored in a non-boolean
+   parameter does not come back *)
+Theorem T14d_illtyped_refuted :
+  exists ty dv v, decode_value ty dv (Some (encode_value v)) <> Some v.
+Proof. exact value_roundtrip_illtyped_refuted. Qed.
+Print Assumptions T14d_illtyped_refuted.
+
+(* T14e. statistics of a re-loaded results object = statistics of the saved one, for the input /
+   output attribute sets read off _calculate_stats on this run, given loads . dumps = id. *)
+Theorem T14e_pickle_roundtrip :
+  forall (V Bytes : Type) (derive : list (option V) -> string -> option V)
+         (dumps : obj V -> Bytes) (loads : Bytes -> obj V),
+  (forall o a, loads (dumps o) a = o a) ->
+  forall (raw : obj V) (n : V) (a : string),
+    let saved := results_of_raw stats_inputs stats_outputs derive raw in
+    let '(data', bytes) := write_pickle Bytes dumps pickle_name_attr saved n in
+    results_of_pickle stats_inputs stats_outputs derive Bytes loads bytes a = data' a.
+Proof. exact pickle_roundtrip_results. Qed.
+Print Assumptions T14e_pickle_roundtrip.
+
+(* non-vacuity: an identity pickle, a statistic computed from an input *)
+Example T14e_example :
+  let derive := fun (snap : list (option nat)) (a : string) =>
+                  if String.eqb a "akaike" then nth 1 snap None else None in
+  let raw : obj nat := fun a => if String.eqb a "logLike" then Some 7%nat else None in
+  let saved := results_of_raw stats_inputs stats_outputs derive raw in
+  let '(data', bytes) := write_pickle (obj nat) (fun o => o) pickle_name_attr saved 0%nat in
+  results_of_pickle stats_inputs stats_outputs derive (obj nat) (fun b => b) bytes "akaike"%string = Some 7%nat.
+Proof. vm_compute. reflexivity. Qed.
+
+(* T14f. every report has one row per estimated parameter (names pairwise distinct), in order,
+   with its name and its estimate: the DataFrame of get_estimated_parameters (also what LaTeX
+   hands to pandas), the HTML rows, the F12 coefficient lines, the printed form. *)
+Theorem T14f_table_lists_all : forall (B : Type) (b_name : B -> string) (aab orb boot : bool)
+    (nboot : string) (betas : list B),
+  NoDup (map b_name betas) ->
+  map fst (gep_table b_name aab orb boot nboot betas) = map b_name betas /\
+  forall b, In b betas -> exists rest,
+    table_loc (gep_table b_name aab orb boot nboot betas) (b_name b) = Some (("Value"%string, (FValue, b)) :: rest).
+Proof. exact latex_table_lists_all. Qed.
+Print Assumptions T14f_table_lists_all.
+
+Theorem T14f_html_lists_all : forall (B : Type) (b_name : B -> string) (aab orb boot : bool)
+    (nboot : string) (betas : list B),
+  NoDup (map b_name betas) ->
+  exists (spec : string) (cells : B -> list (string * cell B)),
+    html_rows (gep_table b_name aab orb boot nboot betas)
+    = map (fun b => (b_name b, (spec, (FValue, b)) :: cells b)) betas.
+Proof. exact html_rows_list_all. Qed.
+Print Assumptions T14f_html_lists_all.
+
+Theorem T14f_f12_lists_all : forall (B : Type) (b_name : B -> string) (aab orb boot : bool)
+    (nboot : string) (betas : list B),
+  NoDup (map b_name betas) ->
+  exists width lspec vspec,
+    f12_rows (gep_table b_name aab orb boot nboot betas)
+    = map (fun b => (str_take width (b_name b), lspec, Some (vspec, (FValue, b)))) betas.
+Proof. exact f12_rows_list_all. Qed.
+Print Assumptions T14f_f12_lists_all.
+
+Theorem T14f_str_lists_all : forall (B : Type) (b_name : B -> string) (betas : list B),
+  exists nspec vspec,
+    str_rows b_name betas = map (fun b => (b_name b, nspec, (vspec, (FValue, b)))) betas.
+Proof. exact str_rows_list_all. Qed.
+Print Assumptions T14f_str_lists_all.
+
+(* non-vacuity: two parameters, one with a long name (F12 shows its first 10 characters) *)
+Example T14f_example :
+  f12_rows (gep_table fst false true false "" [("a_very_long_name", 1%nat); ("b-2", 2%nat)]%string)
+  = [("a_very_lon", " >10", Some (" >+19.12e", (FValue, ("a_very_long_name", 1%nat))));
+     ("b-2", " >10", Some (" >+19.12e", (FValue, ("b-2", 2%nat))))]%string.
+Proof. vm_compute. reflexivity. Qed.
+
+(* faithful model: without distinct names two parameters share one row *)
+Theorem T14f_duplicate_names_refuted :
+  exists (betas : list (string * nat)),
+    List.length (gep_table fst false true false ""%string betas) <> List.length betas.
+Proof. exact gep_table_duplicate_names_refuted. Qed.
+Print Assumptions T14f_duplicate_names_refuted.
